@@ -13,6 +13,9 @@ the head and a part of the body of a 200 response have already been sent.
 Required: once the head of a response is on the wire, the only thing the server
 may still put on the connection is the rest of that body (or nothing: close).
 """
+import os as _os
+_TREE_UNDER_TEST = _os.environ.get("GVERIF_REPO") or _os.getcwd()   # the checkout under test (was the auditing agent's scratch worktree)
+
 import os
 import socket
 import subprocess
@@ -21,7 +24,7 @@ import tempfile
 import textwrap
 import time
 
-sys.path.insert(0, "/tmp/wa_C02")
+sys.path.insert(0, _TREE_UNDER_TEST)
 
 APP = textwrap.dedent('''
     import time
@@ -48,7 +51,7 @@ def main():
     with open(os.path.join(d, "slowapp.py"), "w") as f:
         f.write(APP)
     port = free_port()
-    env = dict(os.environ, PYTHONPATH="/tmp/wa_C02" + os.pathsep + d)
+    env = dict(os.environ, PYTHONPATH=_TREE_UNDER_TEST + os.pathsep + d)
     proc = subprocess.Popen(
         [sys.executable, "-m", "gunicorn", "-b", "127.0.0.1:%d" % port,
          "-w", "1", "-k", "sync", "--timeout", "1", "--graceful-timeout", "1",
